@@ -147,7 +147,11 @@ def deprecatedToUsefulText(ctx:model.Documentable, name:str, deprecated:ast.Call
     if replacement is not None and not validate_identifier(replacement):
         # The replacement is not an identifier, so don't even try to resolve it.
         # By adding extras backtics, we make the replacement a literal text.
-        replacement = replacement.replace('\n', ' ')
+        # Nothing in it may end that literal or the directive: collapse every kind of
+        # whitespace and line break (str.split() knows them all) and NUL, drop backticks
+        # and a trailing backslash.
+        replacement = ' '.join(replacement.replace('\0', ' ').split())
+        replacement = replacement.replace('`', "'").rstrip('\\') or "''"
         replacement = f"`{replacement}`"
     
     if replacement is not None:
